@@ -12,6 +12,7 @@ func applySeq(p *tak.Position, tok string) (*tak.Position, bool) {
 		return p, true
 	}
 	for _, mt := range strings.Split(tok, ";") {
+		_ = p.Hash()
 		n, err := p.Move(decMove(mt))
 		if err != nil {
 			return nil, false
@@ -48,11 +49,17 @@ func rebuild(p *tak.Position) (*tak.Position, error) {
 func init() {
 	opTable["mhash"] = func(s *Session, a []string) string {
 		p := decPos(a[0])
+		_ = p.Hash() // observing the source first must not influence what its successors report
 		n, err := p.Move(decMove(a[1]))
 		if err != nil {
 			return "err"
 		}
-		return fmt.Sprintf("%d %d %d", n.Hash(), n.VerifRaw().Hash, n.VerifHashFromScratch())
+		h1 := n.Hash()
+		h2 := n.Hash()
+		if h1 != h2 {
+			return "unstable-hash"
+		}
+		return fmt.Sprintf("%d %d %d", h1, n.VerifRaw().Hash, n.VerifHashFromScratch())
 	}
 	opTable["trans"] = func(s *Session, a []string) string {
 		p := decPos(a[0])
@@ -126,6 +133,11 @@ func genC08(c *Ctx) {
 		// (1) incremental hash after every kind of move
 		for j := 0; j < 12 && len(ms) > 0; j++ {
 			m := pickBiased(c.R, p, ms)
+			if j == 11 {
+				// the engine's null move: same board, other side to move
+				m = tak.Move{Type: tak.Pass}
+				c.Count("mhash.pass")
+			}
 			c.Emit("mhash " + tok + " " + encMove(m))
 			if m.IsSlide() {
 				c.Count("mhash.slide")
